@@ -1045,7 +1045,7 @@ def run(ctx):
               'lists of <= 3 tags from 5; every Country x 4 location forms, location texts and coordinate boundaries, '
               'all lists of <= 3 from 4 locations; all ordered selections of <= 3 of 6 tags; all lists of <= 3 of 5 '
               'claim ids for collections and featured lists; update() forms; supports (7x6 texts x 4 envelopes); '
-              'purchases (3 ways x 7 ids); legacy: upstream\'s 6 recorded claims + 360 generated v0 JSON documents + '
+              'purchases (3 ways x 7 ids); legacy: upstream\'s 6 recorded claims + 1080 generated v0 JSON documents + '
               'v1 protobuf claims for every v1 language value and a text/nsfw/fee/signature product. '
               'URLs: every channel/stream/channel+stream URL over 8 names x 23 modifiers, with and without scheme; '
               'EVERY string of <= L tokens over 14 tokens (a g @ : # $ / 0 1 f A LF SP *), with and without scheme, '
